@@ -158,9 +158,9 @@ def _gen_doc(rng, k, timeseries):
            ["userID", rng.choice([None, "000123"])],
            ["userInputs", rng.choice([None, [{"userID": 12, "modifiedAt": rfc(t0)}]])]]
     r = rng.random()
-    if r < 0.06:
+    if r < 0.015:
         doc = [f for f in doc if f[0] != "timezone"]                   # KeyError
-    elif r < 0.12:
+    elif r < 0.03:
         doc = [[k_, (rng.choice(BAD_ZONES + [None]) if k_ == "timezone" else v)] for k_, v in doc]
     elif r < 0.2:
         # a string that only looks like a date / other non-date strings
@@ -169,7 +169,7 @@ def _gen_doc(rng, k, timeseries):
     if timeseries or rng.random() < 0.15:
         n = rng.randint(0, 4)
         stamps = [rfc(t0 + 10 * i) for i in range(n)]
-        if rng.random() < 0.1 and n:
+        if rng.random() < 0.04 and n:
             stamps[rng.randrange(n)] = rng.choice(["", "2020-01-01 00:00:00", stamps[0][:-4], stamps[0].replace("GMT", "UTC")])
         doc.append(["chargingCurrent", {"current": [1.5] * n, "timestamps": stamps}])
         if rng.random() < 0.5:
